@@ -117,6 +117,10 @@ def main():
                 elif ln.strip():
                     case_of[len(proto)] = cur
                     proto.append(ln)
+            if spec.get('extra_cases'):
+                for cid, ln in spec['extra_cases'](C, tier, seed):
+                    case_of[len(proto)] = cid
+                    proto.append(ln)
             verdicts, derr = C.run_driver(proto) if proto else ([], '')
             if verdicts is None:
                 broken.append({'what': 'driver', 'name': derr})
@@ -150,6 +154,7 @@ def main():
     violations = 0
     nrep = 0
     known_hit = {}
+    seen_crash = set()
     # crashes: attributed to component named by the harness (#comp) or the property itself
     for cr in crashes_all:
         comp, kind = spec.get('crash_component', pid), cr['kind']
@@ -160,6 +165,11 @@ def main():
         if k:
             known_hit.setdefault(k['id'], k)
             continue
+        sig = (comp, kind, cr.get('detail', '')[:80])
+        if sig in seen_crash:
+            violations += 1
+            continue
+        seen_crash.add(sig)
         nrep += 1
         p = C.write_replay(pid, seed, nrep, {'property': pid, 'seed': seed, 'tier': tier, 'case': cr['case'], 'kind': 'V1-' + cr['kind'],
                                              'component': comp, 'detail': cr['detail'], 'stderr_tail': cr.get('stderr_tail', '')})
